@@ -236,6 +236,19 @@ def run(ctx: Ctx) -> None:
                 m = ops.measure(U, case, i + 1, i + 3, warm=(i % 3 == 0))
             if m is None:
                 continue
+            if op in ("linear", "matmul", "conv1d", "add") and i % 4 == 1:
+                # the scale factors are functions of the shapes, not of the dtype the operands arrive in
+                for dt_ in (torch.float16, torch.bfloat16):
+                    mh = None
+                    with ctx.guard(f"C03:{op}:call", {**key, "dtype": str(dt_)}):
+                        mh = ops.measure(U, case, i + 1, i + 3, dtype=dt_)
+                    if mh is None:
+                        continue
+                    bad = [] if rel_close(mh.fwd, m.fwd, 3e-2) else ["out"]
+                    bad += [n for n in case.diff if not (math.isnan(m.bwd[n]) or math.isnan(mh.bwd[n])) and not rel_close(mh.bwd[n], m.bwd[n], 3e-2)]
+                    if bad:
+                        ctx.violation(f"C03:{op}:dtype", "scale factor differs between float64 and a half-precision dtype", {**key, "dtype": str(dt_)},
+                                      {"tensors": bad, "half": [mh.fwd] + [mh.bwd[n] for n in case.diff], "float64": [m.fwd] + [m.bwd[n] for n in case.diff]})
             counts = measured_counts(case)
             tol = 1e-5 if op == "rms_norm" else TOL
             if op == "linear_readout":
